@@ -2660,6 +2660,14 @@ extern PyObject *{PY_prefix}error_obj;
 
         if top:
             output.extend(self.module_init_decls)
+        else:
+            # A submodule creates the submodules of its own namespaces.
+            for ns in node.namespaces:
+                if ns.wrap.python:
+                    append_format(
+                        output,
+                        "PyObject *{PY_prefix}init_{PY_module_init}(void);",
+                        ns.fmtdict)
         output.extend(modinfo.define_arraydescr)
 
         self._create_splicer("additional_functions", output)
@@ -3318,6 +3326,7 @@ static struct PyModuleDef moduledef = {{
 }};
 #endif
 #define RETVAL {nullptr}
+#define INITERROR return {nullptr}
 
 PyObject *{PY_prefix}init_{PY_module_init}(void)
 {{+
